@@ -36,7 +36,7 @@ Lists(cat) == IF cat = "qa" THEN {<<>>, <<"q1">>, <<"zz">>}
 Tomls == {[path |-> p, vulnerabilities |-> v, optimizations |-> o, qa |-> q] :
             p \in {"P", "contracts", "Q"}, v \in Lists("vulnerabilities"), o \in Lists("optimizations"), q \in Lists("qa")}
 Inputs == {[flag |-> f, toml |-> t, contracts |-> c] :
-             f \in {"", "P", "E", "Q"}, t \in {<<>>} \cup {<<x>> : x \in Tomls}, c \in BOOLEAN}
+             f \in {"", "P", "E", "Q", "contracts"}, t \in {<<>>} \cup {<<x>> : x \in Tomls}, c \in BOOLEAN}
 
 \* the machine with the negative controls switched in
 BadListOf(i, cat) == IF FallbackAll /\ HasToml(i) /\ Toml(i)[cat] = <<>> THEN MCCatalogue[cat] ELSE ListOf(i, cat)
